@@ -395,6 +395,33 @@ func runC17(rc *RunCtx) {
 			rc.Cov.Sample(map[string]interface{}{"genesis": c17Case(gs), "collision": kindName, "validate_error": fmt.Sprint(verr)})
 		}
 	}
+	// large states: more entries than any default page size, exported and re-imported
+	for big := 0; big < rc.Pick(1, 3); big++ {
+		if rc.Shard != big%rc.NShards {
+			continue
+		}
+		e, err := StdEngine(rc, false, false, func(gs *ct.GenesisState, cfg *chain.Config) {
+			for i := 0; i < 260; i++ {
+				gs.UsedNoncesList = append(gs.UsedNoncesList, ct.Nonce{SourceDomain: uint32(i % 5), Nonce: uint64(i) * 104729})
+			}
+			for d := uint32(300); d < 420; d++ {
+				gs.TokenPairList = append(gs.TokenPairList, ct.TokenPair{RemoteDomain: d, RemoteToken: Token(int(d) % NTokens), LocalToken: "uusdc"})
+				gs.TokenMessengerList = append(gs.TokenMessengerList, ct.RemoteTokenMessenger{DomainId: d, Address: Messenger(d, 0)})
+			}
+		})
+		if err != nil {
+			rc.Cov.Inconclusive("big state: " + err.Error())
+			continue
+		}
+		for i := 0; i < 40; i++ {
+			e.Exec(Tx{Msgs: msgs1(&ct.MsgEnableAttester{From: e.M.AM, Attester: AttesterPool[i%len(AttesterPool)].Spell(i / len(AttesterPool))}), Note: "C17 big state"})
+		}
+		src, dst, gs, err := e.ExportImport()
+		if err == nil {
+			c17Raw(rc, src, dst, "large", gs)
+			rc.Cov.Cell("C17_roundtrips", "large")
+		}
+	}
 	// reachable states: histories exported every k-th block and imported into an empty chain
 	for h := 0; h < rc.Pick(3, 12); h++ {
 		e, err := NewHistoryEngine(rc, GenOpts{Unpaused: h%2 == 0}, false, false)
